@@ -236,14 +236,18 @@ func formatStmt(ctx *formatCtx, stmt ast.Stmt) {
 		formatIfStmt(ctx, v)
 	case *ast.CaseClause:
 		formatExprs(ctx, v.List)
+		old := ctx.enterBlock() // each clause is a block of its own
 		formatStmts(ctx, v.Body)
+		ctx.leaveBlock(old)
 	case *ast.SwitchStmt:
 		formatSwitchStmt(ctx, v)
 	case *ast.TypeSwitchStmt:
 		formatTypeSwitchStmt(ctx, v)
 	case *ast.CommClause:
+		old := ctx.enterBlock()
 		formatStmt(ctx, v.Comm)
 		formatStmts(ctx, v.Body)
+		ctx.leaveBlock(old)
 	case *ast.SelectStmt:
 		formatBlockStmt(ctx, v.Body)
 	case *ast.DeclStmt:
